@@ -157,11 +157,38 @@ def obsToJson : Obs → Json
   | .err e => obj [("err", Json.str (errName e))]
   | .skipped => obj [("skip", Json.bool true)]
 
-/-- request `{"cfg":{…}, "init":…, "ops":[…]}` → `{"model":[obs…]}` (first entry: the initial table) -/
+/-- what the specification says about an operation on the tables as they are before it:
+for `where` with keywords `{"hyp": whereWF …, "spec": whereS …}` (the two sides of `where_eq_spec`) -/
+def specInfo (cfg : Cfg) (ts : List (Option Table)) (op : TOp) : Json :=
+  match op with
+  | .whr i Option.none pos kws =>
+    match (ts[i]?).bind id with
+    | some t =>
+      match t.rows with
+      | .ok R =>
+        obj [("hyp", Json.bool (whereWF cfg t pos kws)),
+             ("spec", match whereS { columns := t.columns, rows := R } (kws.map (condOf pos)) with
+                      | .ok rs => rowsToJson rs
+                      | .error e => obj [("err", Json.str (errName e))])]
+      | .error _ => Json.null
+    | Option.none => Json.null
+  | _ => Json.null
+
+def runWithSpec (cfg : Cfg) : List (Option Table) → List TOp → List (Obs × Json)
+  | _, [] => []
+  | ts, op :: rest =>
+    let info := specInfo cfg ts op
+    let r := step cfg ts op
+    (r.2, info) :: runWithSpec cfg r.1 rest
+
+/-- request `{"cfg":{…}, "init":…, "ops":[…]}` → `{"model":[obs…], "spec":[…]}` (first entry of
+`model`: the initial table; `spec` has one entry per operation) -/
 def handle (req : Json) : Except String Json := do
   let cfg ← parseCfg (fieldD req "cfg" (Json.mkObj []))
   let init ← parseInit (← field req "init")
   let ops ← (← arr (← field req "ops")).mapM parseTOp
-  pure (obj [("model", ofList obsToJson (run cfg init ops))])
+  let res := runWithSpec cfg [some init.table] ops
+  pure (obj [("model", ofList obsToJson (observe init.table :: res.map (·.1))),
+             ("spec", Json.arr (res.map (·.2)).toArray)])
 
 end Coba.C17.Driver
